@@ -410,8 +410,13 @@ class FastInterp:
                 self.gate = None
                 if st.orelse:
                     self.block(st.orelse)
-            elif isinstance(st, ast.Try) and not st.finalbody and not st.orelse and st.handlers and \
-                    all(len(h.body) == 1 and isinstance(h.body[0], ast.Pass) for h in st.handlers):
+            elif isinstance(st, ast.Try) and not st.finalbody and not st.orelse and st.handlers and len(st.body) == 1 and \
+                    isinstance(st.body[0], ast.Assign) and len(st.body[0].targets) == 1 and isinstance(st.body[0].value, ast.Call) and \
+                    all(len(h.body) == 1 and (isinstance(h.body[0], ast.Pass) or (
+                        # `except ValueError: x = <the wrapped call's own argument>`: keeps the raw value
+                        isinstance(h.body[0], ast.Assign) and len(h.body[0].targets) == 1 and
+                        norm(h.body[0].targets[0]) == norm(st.body[0].targets[0]) and st.body[0].value.args and
+                        norm(h.body[0].value) == norm(st.body[0].value.args[0]))) for h in st.handlers):
                 # `try: x = Enum(x) except ValueError: pass`: a wrap that keeps the raw value when the class rejects it
                 for c in [c for s_ in st.body for c in calls(s_)]:
                     nm = strip_mod(ap(c.func) or "")
@@ -990,36 +995,38 @@ def r5(ctx):
             params = [a.arg for a in ser.node.args.args]
             vname = params[1] if len(params) > 1 else None
             wname = params[2] if len(params) > 2 else "writer"
-            for st in ser.node.body:
-                if any(isinstance(x, ast.Name) and x.id == wname for x in ast.walk(st)) and not isinstance(st, ast.If):
-                    break      # something was written (or delegated) before: later returns are not "nothing"
-                if not (isinstance(st, ast.If) and st.body and isinstance(st.body[-1], ast.Return) and st.body[-1].value is None):
-                    continue
-                if any(isinstance(x, ast.Name) and x.id == wname for b in st.body for x in ast.walk(b)):
-                    continue
-                conj = st.test.values if isinstance(st.test, ast.BoolOp) and isinstance(st.test.op, ast.And) else [st.test]
-                on_none = any(isinstance(c, ast.Compare) and ap(c.left) == vname and len(c.ops) == 1
-                              and isinstance(c.ops[0], ast.Is) and isinstance(c.comparators[0], ast.Constant)
-                              and c.comparators[0].value is None for c in conj)
+            # a bare `return` that is reached when the value is None, before anything was written
+            for ret in [r for r in walk(ser.node) if isinstance(r, ast.Return) and r.value is None]:
+                conds = conditions(ret, ser.node)
+                ats = [(a_, pol) for c in conds for a_, pol in atoms(c.test, c.polarity)]
+                on_none = any(isinstance(a_, ast.Compare) and ap(a_.left) == vname and len(a_.ops) == 1 and
+                              isinstance(a_.ops[0], ast.Is) and isinstance(a_.comparators[0], ast.Constant) and
+                              a_.comparators[0].value is None and pol for a_, pol in ats)
                 if not on_none:
                     continue
+                # statements that use the writer in front of the return (same function, earlier line, not in a sibling branch)
+                wrote_before = any(isinstance(x, ast.Name) and x.id == wname and getattr(x, "lineno", 0) < ret.lineno
+                                   and not isinstance(getattr(x, "_parent", None), ast.arg)
+                                   for x in ast.walk(ser.node)
+                                   if not any(x is y for y in ast.walk(ser.node.args)))
+                if wrote_before:
+                    continue
                 enabled = True
-                for c in conj:
-                    a = ap(c)
-                    if a and a.startswith("self."):
-                        arg = _ctor_arg(repo, ci, call, a[5:])
-                        if isinstance(arg, ast.Constant) and not arg.value:
+                for a_, pol in ats:
+                    path = ap(a_)
+                    if path and path.startswith("self."):
+                        arg = _ctor_arg(repo, ci, call, path[5:])
+                        if isinstance(arg, ast.Constant) and bool(arg.value) != pol:
                             enabled = False
                 if not enabled:
                     continue
-                # does deserialize hand out None after consuming a framed (terminated) range?
                 gives_none = any(isinstance(r, ast.Return) and isinstance(r.value, ast.Constant) and r.value.value is None
                                  for r in walk(de.node))
                 framed = "Terminated" in cname or any(
                     isinstance(x, ast.Call) and "Terminated" in (ap(x.func) or "")
                     for c in repo.mro(ci) if "__init__" in c.methods for x in ast.walk(c.methods["__init__"].node))
                 if gives_none and framed:
-                    bad = st
+                    bad = ret
                     break
         ctx.ob("C13.R5", key, bad is None, where if bad is None else ctx.w(ser, bad),
                f"{cname}.serialize returns without writing when the value is None (`{norm(bad)[:70] if bad is not None else ''}`), "
